@@ -33,6 +33,9 @@ def build(spec):
             z.set_encoded_header_mode(False)
             for mi, n in enumerate(sizes):
                 name = "f%d/m%d.bin" % (fi, mi)
+                if spec.get("shared"):
+                    # every folder writes into the same directory, which has no entry of its own in the archive
+                    name = "sh/x/f%dm%d.bin" % (fi, mi)
                 if spec.get("longname") and mi == 0:
                     # a member name of tens of thousands of characters: an error object that carries it no longer fits a pipe buffer
                     name = "f%d/%s%d.bin" % (fi, "\u4e2d" * int(spec["longname"]), mi)
@@ -49,6 +52,41 @@ def build(spec):
         _cache.clear()
     _cache[key] = (data, model, folder_of, ranges)
     return _cache[key]
+
+
+_AUDIT = {"sched": None, "root": None, "installed": False}
+
+
+def _audit_gate(event, args):
+    """file-system modifications below the output directory are scheduling points when extraction writes to disk"""
+    s = _AUDIT["sched"]
+    if s is None or not args:
+        return
+    try:
+        if event in ("os.mkdir", "os.symlink", "os.utime", "os.chmod", "os.remove", "os.rename"):
+            path = args[1] if event == "os.symlink" else args[0]
+        elif event == "open":
+            path, flags = args[0], args[2] if len(args) > 2 else 0
+            if not isinstance(flags, int) or not flags & (os.O_WRONLY | os.O_RDWR | os.O_CREAT):
+                return
+        else:
+            return
+        path = os.fspath(path) if not isinstance(path, int) else ""
+        if isinstance(path, bytes):
+            path = path.decode("utf-8", "replace")
+        if not path.startswith(_AUDIT["root"]):
+            return
+    except Exception:
+        return
+    s.point((event, os.path.relpath(path, _AUDIT["root"])))
+
+
+def install_audit_gate():
+    if not _AUDIT["installed"]:
+        import sys
+
+        sys.addaudithook(_audit_gate)
+        _AUDIT["installed"] = True
 
 
 class GateIO(Py7zIO):
@@ -90,7 +128,7 @@ class GateFactory(WriterFactory):
 class C13(Check):
     property_id = "C13"
     level = "exploration"
-    technique = "harness-owned deterministic scheduler gating worker threads at every output event (factory create/write); depth-first enumeration of all schedules for small cases and Hypothesis-drawn schedules beyond; thread / process / sequential modes compared; one folder damaged at each position"
+    technique = "harness-owned deterministic scheduler gating worker threads at every output event (factory create/write, or - for output to disk - every mkdir/open-for-write/utime/chmod audit event below the destination); depth-first enumeration of all schedules for small cases and Hypothesis-drawn schedules beyond; thread / process / sequential modes compared; one folder damaged at each position"
     rule = ("archive = 2..4 folders (append sessions; Copy, LZMA2, BZip2, ZStandard, Deflate, LZMA) x 1..3 members each; extraction chunk limit "
             "patched to 48..200 bytes so that a member is several output writes; execution mode threads (path-opened), processes (mp=True, "
             "to a directory) or sequential (stream-opened); intact or exactly one folder damaged (a byte of its packed stream inverted) at each "
@@ -111,7 +149,7 @@ class C13(Check):
 
     def strategy(self, env):
         spec = st.fixed_dictionaries({"folders": st.lists(st.lists(st.integers(1, 400), min_size=1, max_size=3), min_size=2, max_size=4),
-                                      "chains": st.lists(st.integers(0, 5), min_size=1, max_size=4), "seed": st.integers(0, 99)})
+                                      "chains": st.lists(st.integers(0, 5), min_size=1, max_size=4), "seed": st.integers(0, 99), "shared": st.booleans()})
         return st.fixed_dictionaries({"arch": spec, "mode": st.sampled_from(["threads", "threads", "threads", "process", "sequential"]),
                                       "damage": st.one_of(st.none(), st.none(), st.integers(0, 3)), "out": st.sampled_from(["factory", "factory", "path"]),
                                       "chunk": st.sampled_from([48, 100, 200]), "sched": st.lists(st.integers(0, 3), max_size=40),
@@ -144,6 +182,14 @@ class C13(Check):
                     if env.mine(i):
                         yield {"arch": sp, "mode": mode, "damage": dmg, "out": "path" if mode == "process" else "factory", "chunk": 64, "sched": [],
                                "concurrent_objects": 1}
+                # output to disk with the file-system events as scheduling points; all folders write into one directory that no entry creates
+                if dmg is None:
+                    i += 1
+                    if env.mine(i):
+                        yield {"arch": dict(sp, shared=True), "mode": "threads", "damage": None, "out": "path", "chunk": 64, "sched": "dfs", "concurrent_objects": 1}
+                    i += 1
+                    if env.mine(i):
+                        yield {"arch": sp, "mode": "threads", "damage": None, "out": "path", "chunk": 64, "sched": "dfs", "concurrent_objects": 1}
                 # integrity test instead of extraction, with ordinary and very long member names (a worker's error carries the name)
                 for mode in ("threads", "process", "sequential"):
                     for ln in (0, 30000):
@@ -207,11 +253,11 @@ class C13(Check):
                 if op == "testzip":
                     self._run_testzip(apath, D, build(case["arch"])[1], folder_of, dmg, mode, out, sig)
                     nsched = 1
-                elif mode == "threads" and outk == "factory":
+                elif mode == "threads":
                     schedule = [] if case["sched"] == "dfs" else list(case["sched"])
                     cap = 250 if env.quick else 1500
                     while True:
-                        r = self._run_threads(apath, model, folder_of, dmg, schedule, out, sig, T)
+                        r = self._run_threads(apath, model, folder_of, dmg, schedule, out, sig, T, dest=os.path.join(work, "out") if outk == "path" else None)
                         nsched += 1
                         if r is None:
                             break
@@ -263,11 +309,15 @@ class C13(Check):
             if n in model and d != model[n] and (dmg is None or folder_of.get(n) != dmg):
                 out.violate(dict(ctx, kind="bytes-differ"), observed={"name": n, "len": len(d), "folder": folder_of.get(n)}, expected={"len": len(model[n])})
 
-    def _run_threads(self, apath, model, folder_of, dmg, schedule, out, sig, T=None):
+    def _run_threads(self, apath, model, folder_of, dmg, schedule, out, sig, T=None, dest=None):
         import py7zr.py7zr as pp
 
         counter = {"n": 0}
         sched = Scheduler(schedule, key_of=lambda label: label[1] if label[0] == "start" else "f%s" % folder_of.get(label[1], "?"))
+        if dest is not None:
+            install_audit_gate()
+            shutil.rmtree(dest, ignore_errors=True)
+            os.makedirs(dest)
 
         class GatedThread(threading.Thread):
             """worker threads also park before their first statement, so that a late start is a schedulable event"""
@@ -288,21 +338,38 @@ class C13(Check):
             pp.Thread = GatedThread
         sched.start()
         try:
+            if dest is not None:
+                _AUDIT["root"] = dest.rstrip("/") + "/"
+                _AUDIT["sched"] = sched
             try:
                 with py7zr.SevenZipFile(apath, "r") as z:
-                    if T is None:
+                    if dest is not None:
+                        if T is None:
+                            z.extractall(dest)
+                        else:
+                            z.extract(dest, targets=T)
+                    elif T is None:
                         z.extractall(factory=fac)
                     else:
                         z.extract(targets=T, factory=fac)
             except Exception as e:
                 raised = e
         finally:
+            _AUDIT["sched"] = None
             sched.finish()
             if orig_thread is not None:
                 pp.Thread = orig_thread
         if sched.error:
             raise HarnessError(sched.error)
-        got = {k: v.buf.getvalue() for k, v in fac.products.items()}
+        if dest is not None:
+            got = {}
+            for n in model:
+                p = os.path.join(dest, n)
+                if os.path.isfile(p):
+                    with open(p, "rb") as f:
+                        got[n] = f.read()
+        else:
+            got = {k: v.buf.getvalue() for k, v in fac.products.items()}
         self._judge(out, sig, raised, got, model, folder_of, dmg, {"schedule_len": min(len(sched.trace), 3) and "scheduled"})
         if not sched.trace:
             return None
